@@ -43,6 +43,22 @@ func NewTicker(site string, d time.Duration) *time.Ticker {
 	return time.NewTicker(d)
 }
 
+// AfterFunc is time.AfterFunc with a registered deadline; the callback runs as a member of the domain that
+// armed the timer (a goroutine started by the runtime carries no labels) and parks before it does anything.
+func AfterFunc(site string, d time.Duration, f func()) *time.Timer {
+	if x := cur.Load(); x != nil && !x.free.Load() {
+		if dom := x.domainOf(); dom != nil {
+			x.registerTimer(d)
+			return time.AfterFunc(d, func() {
+				dom.enter()
+				Point("afterfunc:" + site)
+				f()
+			})
+		}
+	}
+	return time.AfterFunc(d, f)
+}
+
 // Pause is a harness-level sleep: registered, so the gap can also be cut
 // short by nothing but time itself.
 func (x *Exec) Pause(d time.Duration) {
